@@ -696,8 +696,10 @@ func registryRealTimeEndings(r *rep.Report, cause string) (key, msg string, deci
 		eng.Close()
 		return "", "not every session reported the state closed within 40 s", false
 	}
-	rig.Settle()
-	rig.Settle()
+	if !rig.AtRest(20 * time.Second) {
+		eng.Close()
+		return "", "the process did not come to rest within 20 s", false
+	}
 	defer eng.Close()
 	for _, s := range socks {
 		if _, ok := eng.Clients().Load(s.Id()); ok {
